@@ -59,6 +59,7 @@ RangeOf(s) == {s[i] : i \in DOMAIN s}
 
 (* ---- what a configured return specification evaluates to ----------------*)
 \* ret: [k, t]  k = "is" (t = Type) | "self" | "unify" | "ounify" | "arg" | "selfarr" | "kva"
+\*              | "unify_nil" (Unify|NilClass) | "unify_str" (Unify|String) | "self_int" (Self|Int)
 UnifyNames(recv) == IF IsArrT(recv) THEN Elems(recv) ELSE IF IsHshT(recv) THEN Values(Map(recv)) ELSE {}
 Unify(recv) == IF UnifyNames(recv) = {} THEN Untyped ELSE ClsT(UnifyNames(recv))
 
@@ -70,6 +71,10 @@ Ret(ret, recv, argT) ==
       [] ret.k = "arg"     -> argT
       [] ret.k = "selfarr" -> T({Arr(Elems(recv))})
       [] ret.k = "kva"     -> T({Arr(Values(Map(recv)))})
+      \* union returns with a special member: the union of what the members resolve to
+      [] ret.k = "unify_nil" -> IF UnifyNames(recv) = {} THEN Untyped ELSE ClsT(UnifyNames(recv) \cup {"NilClass"})
+      [] ret.k = "unify_str" -> IF UnifyNames(recv) = {} THEN Untyped ELSE ClsT(UnifyNames(recv) \cup {"String"})
+      [] ret.k = "self_int"  -> T(recv.s \cup {Cls("Integer")})
 
 ClassOf(t) == IF IsArrT(t) THEN "Array" ELSE IF IsHshT(t) THEN "Hash"
               ELSE IF IsScalarT(t) /\ Cardinality(t.s) = 1 THEN TheAtom(t).n ELSE "?"
@@ -110,7 +115,7 @@ Push(w, c, how) ==
 
 AssignCall(v, w, m, argc) ==
     /\ v # w /\ IsT(env[w]) /\ ClassOf(env[w]) = m.recv
-    /\ (m.ret.k \in {"unify", "ounify", "selfarr"} => (IsArrT(env[w]) /\ Elems(env[w]) # {}) \/ (IsHshT(env[w]) /\ m.ret.k # "selfarr"))
+    /\ (m.ret.k \in {"unify", "ounify", "selfarr", "unify_nil", "unify_str"} => (IsArrT(env[w]) /\ Elems(env[w]) # {}) \/ (IsHshT(env[w]) /\ m.ret.k # "selfarr"))
     /\ LET r == Ret(m.ret, env[w], ClsT({argc}))
            recv2 == IF Dev_OptionalUnifyMutatesReceiver /\ m.ret.k = "ounify" /\ IsArrT(env[w])
                       THEN T({Arr(Elems(env[w]) \cup {"NilClass"})}) ELSE env[w]
